@@ -616,6 +616,10 @@ class Flattening:
                     rows[(rnd, lim)] = ("unknown", str(u), used)
                     why = why or str(u)
         kinds = {r[0] for r in rows.values()}
+        if any(r[0] == "other" and not isinstance(r[3], bool) for r in rows.values()):
+            # the value is an object / a number / a dict (a record built around names, a count, ...): not a name, not a test - what matters
+            # are the expressions inside it and what is read from it later
+            return {"verdict": "opaque"}
         if "unknown" in kinds:
             return {"verdict": "unknown", "why": why}
         dependent = any(rows[(rnd, lim)][:2] != rows[(rnd, None)][:2] for rnd in rounds for lim in LIMITS)
@@ -831,6 +835,8 @@ def rule_r1_r3(cx: Ctx, cons: list[FuncInfo]) -> Flow:
             continue
         v = fl.classify(f, e, flow1)
         verdict = v["verdict"]
+        if verdict == "opaque":
+            continue
         if verdict not in ("independent",) and not (verdict == "unknown" and not fl.depends_on_limit(f, e, flow1)):
             covered |= {id(x) for x in ast.walk(e)}
         if verdict == "cut-only":
@@ -994,7 +1000,7 @@ def rule_r1_r3(cx: Ctx, cons: list[FuncInfo]) -> Flow:
     if not n_flat and not res.undecided:
         # nothing in the construction code depends on the limit at all: the limit is ignored
         lim_used = bool(fl.carriers) or stray_limit
-        res.add("C09.R3", f"{cx.g.module.relpath}::{cx.g.name}::the limit reaches a truncation", False, "the level limit " + ("is stored but never applied to a node name" if lim_used else "is ignored by the graph") + ": the graph is not flattened", where(cx.init, cx.init.node), kind="flow")
+        cx.limit_unused = "the level limit " + ("is stored but never applied to a node name" if lim_used else "is ignored by the graph") + ": the graph is not flattened"
     cx.import_records = fl.records
     return flow
 
@@ -1043,6 +1049,30 @@ def _unmodified_param(f: FuncInfo, e: ast.expr) -> str | None:
     return e.id
 
 
+def _param_path(f: FuncInfo, e: ast.expr) -> tuple[str, list[str]] | None:
+    """`p` / `p.a.b` for a parameter p of `f` that is neither re-bound nor has attributes stored to in `f`: (p, [a, b])."""
+    path: list[str] = []
+    root = e
+    while isinstance(root, ast.Attribute):
+        path.append(root.attr)
+        root = root.value
+    if not isinstance(root, ast.Name) or root.id not in f.param_names:
+        return None
+    for n in own_nodes(f.node):
+        if isinstance(n, ast.Name) and n.id == root.id and isinstance(n.ctx, (ast.Store, ast.Del)):
+            return None
+        if path and isinstance(n, ast.Attribute) and isinstance(n.ctx, (ast.Store, ast.Del)) and isinstance(n.value, ast.Name) and n.value.id == root.id:
+            return None
+    return root.id, list(reversed(path))
+
+
+def _with_path(base: ast.expr, path: list[str]) -> ast.expr:
+    out = base
+    for a in path:
+        out = ast.copy_location(ast.Attribute(value=out, attr=a, ctx=ast.Load()), base)
+    return out
+
+
 def _arg_for(callee: FuncInfo, call: ast.Call, pname: str) -> ast.expr | None:
     a = callee.node.args
     pos = [p.arg for p in [*a.posonlyargs, *a.args]]
@@ -1058,16 +1088,67 @@ def _arg_for(callee: FuncInfo, call: ast.Call, pname: str) -> ast.expr | None:
     return None
 
 
+def _expand_property_atoms(cx: Ctx, f: FuncInfo, fm, depth: int = 0):
+    """`bool(edge.is_loop)` -> the formula of the property's returned expression with `self` replaced by `edge` (one-line properties of
+    classes of the analysed code; guard_formula inlines helper functions, not properties of other objects)."""
+    from .common import truth
+
+    if depth > 3:
+        return fm
+    if fm[0] in ("and", "or"):
+        return (fm[0], [_expand_property_atoms(cx, f, x, depth) for x in fm[1]])
+    if fm[0] == "not":
+        return f_not(_expand_property_atoms(cx, f, fm[1], depth))
+    if fm[0] != "atom":
+        return fm
+    try:
+        e = ast.parse(fm[1], mode="eval").body
+    except SyntaxError:
+        return fm
+    if isinstance(e, ast.Call) and isinstance(e.func, ast.Name) and e.func.id == "bool" and len(e.args) == 1 and not e.keywords:
+        e = e.args[0]
+    if not isinstance(e, ast.Attribute):
+        return fm
+    try:
+        t = cx.T.expr(f, e.value)
+    except Exception:  # noqa: BLE001
+        return fm
+    impls = []
+    for m in members(t):
+        if m[0] == "cls" and m[1] in cx.repo.classes:
+            meth = cx.repo.lookup_method(cx.repo.classes[m[1]], e.attr)
+            if meth is not None and meth.is_property:
+                impls.append(meth)
+    if len(impls) != 1 or not impls[0].param_names:
+        return fm
+    body = [st for st in impls[0].node.body if not (isinstance(st, ast.Expr) and isinstance(st.value, ast.Constant))]
+    if len(body) != 1 or not isinstance(body[0], ast.Return) or body[0].value is None:
+        return fm
+    me = impls[0].param_names[0]
+
+    class Sub(ast.NodeTransformer):
+        def visit_Name(self, n: ast.Name):  # noqa: N802
+            return ast.copy_location(ast.parse(ast.unparse(e.value), mode="eval").body, n) if n.id == me else n
+
+    new = Sub().visit(ast.parse(ast.unparse(body[0].value), mode="eval").body)
+    ast.fix_missing_locations(new)
+    try:
+        return _expand_property_atoms(cx, f, truth(f, new), depth + 1)
+    except AnalysisError:
+        return fm
+
+
 def guarded_distinct(cx: Ctx, cons: list[FuncInfo], f: FuncInfo, node: ast.AST, u: ast.expr, v: ast.expr, depth: int = 0) -> tuple[bool | None, str]:
     """Is `node` only evaluated when u != v?  (True / False / None = cannot tell)"""
     try:
-        gf = guard_formula(f, node)
+        gf = _expand_property_atoms(cx, f, guard_formula(f, node))
         for x, y in ((u, v), (_alias_source(f, u), _alias_source(f, v))):
             if implies(gf, f_not(_eq_atom(x, y))):
                 return True, f"guarded in {f.qualname}"
     except AnalysisError as e:
         return None, str(e)
-    pu, pv = _unmodified_param(f, u), _unmodified_param(f, v)
+    ppu, ppv = _param_path(f, u), _param_path(f, v)
+    pu, pv = (ppu[0] if ppu else None), (ppv[0] if ppv else None)
     if depth < 3 and pu and pv:
         sites = []
         for h in cons:
@@ -1084,6 +1165,7 @@ def guarded_distinct(cx: Ctx, cons: list[FuncInfo], f: FuncInfo, node: ast.AST, 
                 x, y = _arg_for(f, c, pu), _arg_for(f, c, pv)
                 if x is None or y is None:
                     return None, f"call `{norm(c, 60)}` of {f.qualname} binds its arguments in a way that is not understood"
+                x, y = _with_path(x, ppu[1]), _with_path(y, ppv[1])  # `edge.start` inside the callee is `<argument>.start` at the call
                 ok, why = guarded_distinct(cx, cons, h, c, x, y, depth + 1)
                 if not ok:
                     return ok, why
@@ -1319,7 +1401,8 @@ R6_LONE_MODULES = ("proj.lonely.deep.mod.x", "solo")
 
 
 def _related(a: str, b: str) -> bool:
-    return a == b or a.startswith(b + ".") or b.startswith(a + ".")
+    """One is a proper dotted prefix of the other."""
+    return a.startswith(b + ".") or b.startswith(a + ".")
 
 
 def rule_r6(cx: Ctx, records: list[tuple]) -> bool:
@@ -1411,6 +1494,10 @@ def rule_r6(cx: Ctx, records: list[tuple]) -> bool:
         if set(g.nodes) != want_nodes:
             extra, missing = sorted(set(g.nodes) - want_nodes), sorted(want_nodes - set(g.nodes))
             problem = f"nodes {missing[:3]} are missing" if missing else f"nodes {extra[:3]} are not truncated names of modules of the full graph"
+        elif any(u == v for u, v in g.edges):
+            u = next(u for u, v in g.edges if u == v)
+            src = next(((a, b, note) for a, b, note in ends if t(a) == u and t(b) == u), None)
+            problem = f"the node {u} has an edge to itself" + (f" ({src[0]} imports {src[1]}{src[2]}: both flatten to {u})" if src else "")
         else:
             impk, inhk = kinds(g)
             want_imp = {(t(u), t(v)) for u, v in imp0 if t(u) != t(v)}
@@ -1723,6 +1810,13 @@ def run(repo: Repo) -> Result:
     flow = rule_r1_r3(cx, cons)
     rule_r2(cx, cons, flow)
     tabulated = rule_r6(cx, getattr(cx, "import_records", []))
+    r6_passed = tabulated and not any(o.rule == "C09.R6" and not o.ok for o in res.obligations)
+    if getattr(cx, "limit_unused", None):
+        if r6_passed:
+            # no expression of the construction code was recognised as the truncation, but the evaluated constructor does flatten
+            res.observe(f"C09.R3: no truncation was recognised in the construction code ({cx.limit_unused}) - contradicted by the construction table (C09.R6), which finds the limited graphs flattened")
+        else:
+            res.add("C09.R3", f"{cx.g.module.relpath}::{cx.g.name}::the limit reaches a truncation", False, cx.limit_unused, where(cx.init, cx.init.node), kind="flow")
     for k, p in enumerate(cx.r1_pending):
         a = p["arg"]
         obs = getattr(cx, "r6_seen", {}).get(k, {}) if tabulated and not any(o.rule == "C09.R6" and not o.ok for o in res.obligations) else {}
